@@ -1,6 +1,34 @@
 /-
-The WHOLE modelled system — wired clients (Model/Wired: `WDt.createPack`, `WDt.applyPack`) + the store-level
-server (Model/Server: `processPack`) — refines `PNet` (Proofs/ProtoNet).  Core Lean only.
+The WHOLE modelled system — wired clients (Model/Wired: `WDt.createPack`, `WDt.applyPack`, with the replica of
+Model/Replica inside) + the store-level server (Model/Server: `processPack` on a `Store`) — refines `PNet`
+(Proofs/ProtoNet), so that the convergence theorems of Props/C07 are theorems about the executable model that the
+correspondence harness ties to the Go code.
+
+REPLICAS.  `PNet` keeps the protocol checkpoint beside the replica and executes pulled operations with `execRemoteBase`
+(`execAll`); the wired layer keeps the checkpoint IN the replica (`rep.cp`) and `Replica.receive` also appends every
+executed operation to the rollback log `rbOps`.  No public call and no remote execution reads either field, so replicas
+are compared up to them: `erase`, `call_sim`, `execRemoteBase_sim`, `execAll_sim`, `execOK_sim`.
+`receive_ok`: on operations that are no transaction units and whose remote executions do not panic, `Replica.receive`
+returns `.ok`, the replica of `execAll` (up to `rbOps`), the checkpoint untouched.  (If an execution DID panic,
+`Replica.receive` would stop where `execAll` goes on: `PNet.faults_deliveries_exact` excludes it in reachable states.)
+No transaction unit ever travels: `prepare_noTx`, `execLocal_noTx`, `call_noTx`, `noTx_reach`, `log_noTx`, `resp_noTx`
+— proved, not assumed; no step carries a guard for it.
+
+ONE-STEP LEMMAS.  `createPack_is_send` (with `pending_eq_drop`: on a buffer numbered 1,2,…, `Replica.pending` is
+`buffer.drop cp.cseq`), `applyPack_subscribed` (normal form), `applyPack_is_receive`, `applyPack_error_is_stutter`.
+
+THE SYSTEM.  `FSys` / `FStep typ tg` (call, send, serve, deliver, other, frame) / `FRun`.  Error packs produced by the
+server DO join the responses and ARE delivered: the client only calls its error handler (`applyPack_error_is_stutter`), an
+invisible step.  `Rel tg F S` (simulation relation): `SRef.Good` store, `S.log = absLog`, `S.cps = absCps`, clients
+pairwise `CRel` (same replica up to `cp`/`rbOps`, protocol checkpoint = `rep.cp`, wired state `.subscribed`, key/id of the
+target, registered non-volatile client record of the replica's cuid; the ghost `applied` is whatever `S` holds),
+`S.reqs` = the packs' protocol content with every pack an ordinary pack (`SRef.PackOf`), `S.resps` = the protocol content of
+the NON-error packs, none with the subscribe bit.
+`full_step_simulates`: every `FStep` is an `RStep` or invisible (needs `RReach` of the abstract state: numbered buffers for
+`send`, no panic and no transaction unit for `deliver`); `full_run_simulates_pnet`; `rel_init`.
+CONVERGENCE.  `FQuiescent`, `full_quiescent_converged_list / _counter / _map / _document`.
+OUT OF SCOPE: the entry phase on the client side (`applyPack`'s subscribe / due-to-create branches; store side:
+`ServerRefineJoin`), user transactions (as in `PNet`), read-only / volatile clients.  Core Lean only.
 -/
 import Orda.Proofs.ServerRefine
 import Orda.Proofs.ProtoNet
@@ -213,6 +241,112 @@ theorem applyPack_is_receive {w : WDt} {rc : RClient} {p : Pack} (hs : w.dstate 
     show CheckPoint.mk (max rc.cp.sseq p.cp.sseq) (max rc.cp.cseq p.cp.cseq) = _
     rw [hcp]
 
+/-! ## No transaction unit ever travels (`PNet` has no transaction calls) -/
+
+theorem prepareDoc_noTx (d : Doc) (c : Call) {b : OpBody} {post : Ret → Ret} (h : c.prepareDoc d = .op b post) :
+    isTx b = false := by
+  cases c <;> simp only [Call.prepareDoc] at h <;> (repeat' split at h) <;>
+    first
+    | (simp only [Prep.op.injEq] at h; obtain ⟨rfl, _⟩ := h; rfl)
+    | (simp at h)
+
+theorem prepare_noTx (s : DState) (c : Call) {b : OpBody} {post : Ret → Ret} (h : c.prepare s = .op b post) :
+    isTx b = false := by
+  cases c <;> simp only [Call.prepare] at h <;> (repeat' split at h) <;>
+    first
+    | (simp only [Prep.op.injEq] at h; obtain ⟨rfl, _⟩ := h; rfl)
+    | exact prepareDoc_noTx _ _ h
+    | (simp at h)
+
+theorem execLocal_noTx (s : DState) (ts : Ts) (b : OpBody) {s' : DState} {b' : OpBody} {ret : Ret}
+    (h : execLocal s ts b = .ok (s', b', ret)) (hb : isTx b = false) : isTx b' = false := by
+  unfold execLocal at h
+  (repeat' split at h) <;>
+    first
+    | (simp only [Outcome.ok.injEq, Prod.mk.injEq] at h; obtain ⟨_, rfl, _⟩ := h; rfl)
+    | (simp at h)
+
+theorem wire_noTx (o : Op) (h : isTx o.body = false) : isTx o.wire.body = false := by
+  unfold Op.wire OpBody.wire
+  cases hb : o.body <;> simp_all [isTx]
+
+/-- a public call queues no transaction unit -/
+theorem call_noTx (r : Replica) (c : Call) : ∀ o ∈ (r.call c).1.buffer, o ∈ r.buffer ∨ isTx o.body = false := by
+  obtain ⟨t, id, s, buf, cp, rid, rs, ro⟩ := r
+  unfold Replica.call
+  simp only []
+  cases hp : c.prepare s with
+  | done o => intro o ho; exact Or.inl ho
+  | op b post =>
+    have hb := prepare_noTx s c hp
+    simp only []
+    unfold Replica.callLocal Replica.execLocalBase
+    simp only []
+    by_cases hm : b.isMeta = true
+    · simp only [hm, if_true]
+      intro o ho
+      rcases List.mem_append.1 ho with ho | ho
+      · exact Or.inl ho
+      · simp only [List.mem_singleton] at ho; subst ho; exact Or.inr (wire_noTx _ hb)
+    · simp only [hm, Bool.false_eq_true, if_false]
+      cases he : execLocal s id.next.ts b with
+      | ok res =>
+        obtain ⟨s2, b2, ret⟩ := res
+        simp only []
+        intro o ho
+        rcases List.mem_append.1 ho with ho | ho
+        · exact Or.inl ho
+        · simp only [List.mem_singleton] at ho; subst ho; exact Or.inr (wire_noTx _ (execLocal_noTx _ _ _ he hb))
+      | err e => intro o ho; exact Or.inl ho
+      | panic w => intro o ho; exact Or.inl ho
+
+/-- no buffer of a `PNet` state holds a transaction unit -/
+def NoTxR (S : RSys) : Prop := ∀ cl ∈ S.clients, ∀ o ∈ cl.r.buffer, isTx o.body = false
+
+theorem noTx_step {typ : DtType} {S S' : RSys} (h : NoTxR S) (s : RStep typ S S') : NoTxR S' := by
+  cases s with
+  | call i cl c hi hc =>
+    intro cl' hcl' o ho
+    rcases List.mem_or_eq_of_mem_set hcl' with hm | rfl
+    · exact h cl' hm o ho
+    · rcases call_noTx cl.r c o ho with h1 | h1
+      · exact h cl (List.mem_of_getElem? hi) o h1
+      · exact h1
+  | send i cl hi => exact h
+  | serve r cl cp2 docs hr hi hp => exact h
+  | refuse r cl code hr hi hp => exact h
+  | deliver p cl hp hi =>
+    intro cl' hcl' o ho
+    rcases List.mem_or_eq_of_mem_set hcl' with hm | rfl
+    · exact h cl' hm o ho
+    · have : (cl.receive p).r.buffer = cl.r.buffer := PNet.execAll_buffer _ _
+      rw [this] at ho
+      exact h cl (List.mem_of_getElem? hi) o ho
+
+theorem noTx_reach {typ : DtType} {cuids : List String} {S : RSys} (h : RReach typ cuids S) : NoTxR S := by
+  induction h with
+  | init _ =>
+    intro cl hcl o ho
+    simp only [RSys.init, List.mem_map] at hcl
+    obtain ⟨u, _, rfl⟩ := hcl
+    cases ho
+  | step _ s ih => exact noTx_step ih s
+
+/-- … hence none is in the log, and none in any response ever produced -/
+theorem log_noTx {typ : DtType} {cuids : List String} {S : RSys} (h : RReach typ cuids S) :
+    ∀ o ∈ S.log, isTx o.body = false := by
+  intro o ho
+  obtain ⟨cl, hcl, hm⟩ := (log_is_exactly_issued (proj_reach h) o).1 ho
+  obtain ⟨rc, hrc, rfl⟩ := List.mem_map.1 hcl
+  exact noTx_reach h rc hrc o (List.mem_of_mem_take hm)
+
+theorem resp_noTx {typ : DtType} {cuids : List String} {S : RSys} (h : RReach typ cuids S) {p : PResp} {cl : RClient}
+    (hp : p ∈ S.resps) (hi : S.clients[p.i]? = some cl) : ∀ o ∈ p.ops, isTx o.body = false := by
+  obtain ⟨e, sr, h1, _⟩ := (proto_inv (proj_reach h)).resp p hp cl.view (proj_get hi)
+  intro o ho
+  rw [h1] at ho
+  exact log_noTx h o (List.mem_of_mem_take (List.mem_of_mem_drop ho))
+
 /-! ## The whole system -/
 
 /-- the whole system: the real store, wired clients (registered client record + wired datatype), the network -/
@@ -237,10 +371,9 @@ inductive FStep (typ : DtType) (tg : Target) : FSys → FSys → Prop
       (i, p) ∈ F.reqs → F.clients[i]? = some (cd, w) →
       FStep typ tg F { F with st := (processPack F.st cd tg.col p).store,
                               resps := F.resps ++ [(i, (processPack F.st cd tg.col p).resp)] }
-  /-- ANY response ever produced is applied by its client (any number of times, in any order) with `WDt.applyPack`.
-      Guard: the pack carries no transaction unit (`PNet` has no transaction calls, so none is ever issued) -/
+  /-- ANY response ever produced is applied by its client (any number of times, in any order) with `WDt.applyPack` -/
   | deliver (F : FSys) (i : Nat) (p : Pack) (cd : ClientDoc) (w : WDt) :
-      (i, p) ∈ F.resps → F.clients[i]? = some (cd, w) → (∀ o ∈ p.ops, isTx o.body = false) →
+      (i, p) ∈ F.resps → F.clients[i]? = some (cd, w) →
       FStep typ tg F { F with clients := F.clients.set i (cd, (w.applyPack p).1) }
   /-- any pack of anybody answered for another datatype id -/
   | other (F : FSys) (cd : ClientDoc) (col : CollectionDoc) (p : Pack) :
@@ -416,7 +549,7 @@ theorem full_step_simulates {typ : DtType} {tg : Target} {cuids : List String} {
         have : respOf (i, (processPack F.st cd tg.col p).resp) = none := by
           unfold respOf; simp only [h2]; rfl
         simp [this]
-  | deliver i p cd w hp hi hnotx =>
+  | deliver i p cd w hp hi =>
     obtain ⟨rc, hrc, cr⟩ := h.partner hi
     by_cases he : p.error = true
     · have hst := (applyPack_error_is_stutter w p he).1
@@ -430,6 +563,7 @@ theorem full_step_simulates {typ : DtType} {tg : Target} {cuids : List String} {
       have hmem : (⟨i, p.ops, p.cp⟩ : PResp) ∈ S.resps := by
         rw [h.resps]
         exact List.mem_filterMap.2 ⟨(i, p), hp, by simp [respOf, he']⟩
+      have hnotx : ∀ o ∈ p.ops, isTx o.body = false := resp_noTx hr (p := ⟨i, p.ops, p.cp⟩) hmem hrc
       have hok : ExecOK rc.r (newForeignOps rc.cuid rc.cp p.cp p.ops) :=
         faults_deliveries_exact hr (p := ⟨i, p.ops, p.cp⟩) hmem hrc
       obtain ⟨a1, a2, a3, a4, a5, _⟩ := applyPack_is_receive cr.subscribed he' hsub cr.rep cr.cp hnotx hok i
@@ -575,5 +709,77 @@ theorem rel_init (typ : DtType) {tg : Target} {st0 : Store} {cds : List ClientDo
       exact ⟨rfl, rfl, rfl, rfl, rfl, rfl, hv cd (List.mem_of_getElem? hq)⟩
   · intro e he; cases he
   · intro e he; cases he
+
+/-! ## Non-vacuity
+
+`SRef.Ex`'s store `s2` (collection "c", clients "a" and "b" registered), the target "k"/"d1" created empty with nobody
+recorded (a create pack without operations of a volatile client), two subscribed wired counter clients.  Then, through
+the steps of the whole system: a calls `inc 5`, sends (`createPack`), is served (`processPack`), applies the answer
+(`applyPack`); b sends, is served, applies the answer and executes a's operation.  Quiescent; both hold 5. -/
+namespace Ex
+open Orda.SRef.Ex
+
+def tg : Target := ⟨col, "d1", "k"⟩
+def st0 : Store :=
+  (processPack s2 ⟨"v", "v", 1, 2, 0⟩ col
+    { key := "k", duid := "d1", create := true, cp := ⟨0, 0⟩, typ := .counter, ops := [] }).store
+def wA0 : WDt := ⟨Replica.new .counter "a" false, "k", "d1", .subscribed⟩
+def wB0 : WDt := ⟨Replica.new .counter "b" false, "k", "d1", .subscribed⟩
+def wA1 : WDt := { wA0 with rep := (wA0.rep.call (.inc 5)).1 }
+def pA : Pack := wA1.createPack
+def r1 : PPResult := processPack st0 cA col pA
+def wA2 : WDt := (wA1.applyPack r1.resp).1
+def pB : Pack := wB0.createPack
+def r2 : PPResult := processPack r1.store cB col pB
+def wB1 : WDt := (wB0.applyPack r2.resp).1
+
+def F0 : FSys := FSys.init .counter tg st0 [cA, cB]
+def F1 : FSys := ⟨st0, [(cA, wA1), (cB, wB0)], [], []⟩
+def F2 : FSys := ⟨st0, [(cA, wA1), (cB, wB0)], [(0, pA)], []⟩
+def F3 : FSys := ⟨r1.store, [(cA, wA1), (cB, wB0)], [(0, pA)], [(0, r1.resp)]⟩
+def F4 : FSys := ⟨r1.store, [(cA, wA2), (cB, wB0)], [(0, pA)], [(0, r1.resp)]⟩
+def F5 : FSys := ⟨r1.store, [(cA, wA2), (cB, wB0)], [(0, pA), (1, pB)], [(0, r1.resp)]⟩
+def F6 : FSys := ⟨r2.store, [(cA, wA2), (cB, wB0)], [(0, pA), (1, pB)], [(0, r1.resp), (1, r2.resp)]⟩
+def F7 : FSys := ⟨r2.store, [(cA, wA2), (cB, wB1)], [(0, pA), (1, pB)], [(0, r1.resp), (1, r2.resp)]⟩
+
+example : F0 = ⟨st0, [(cA, wA0), (cB, wB0)], [], []⟩ := rfl
+
+theorem run : FRun .counter tg F0 F7 := by
+  have h1 : FRun .counter tg F0 F1 := .step (.refl _) (.call _ 0 cA wA0 (.inc 5) rfl trivial)
+  have h2 : FRun .counter tg F0 F2 := .step h1 (.send _ 0 cA wA1 rfl)
+  have h3 : FRun .counter tg F0 F3 := .step h2 (.serve _ 0 pA cA wA1 (by simp [F2]) rfl)
+  have h4 : FRun .counter tg F0 F4 := .step h3 (.deliver _ 0 r1.resp cA wA1 (by simp [F3]) rfl)
+  have h5 : FRun .counter tg F0 F5 := .step h4 (.send _ 1 cB wB0 rfl)
+  have h6 : FRun .counter tg F0 F6 := .step h5 (.serve _ 1 pB cB wB0 (by simp [F5]) rfl)
+  exact .step h6 (.deliver _ 1 r2.resp cB wB0 (by simp [F6]) rfl)
+
+theorem inv0 : LogInv st0 := logInv_processPack _ _ _ _ inv2'
+  where inv2' : LogInv s2 :=
+    logInv_processClient _ _ _ _ (logInv_processClient _ _ _ _ (logInv_makeCollection _ _ logInv_empty))
+
+theorem rel0 : Rel tg F0 (RSys.init .counter ["a", "b"]) :=
+  rel_init .counter (cds := [cA, cB])
+    ⟨inv0, ⟨"d1", "k", 1, .counter, 0, 0, 0, true, [], []⟩, rfl, rfl, rfl, by decide⟩ rfl rfl
+    (by intro cd h; simp only [List.mem_cons, List.not_mem_nil, or_false] at h; rcases h with rfl | rfl <;> decide)
+
+theorem quiescent7 : FQuiescent tg F7 := by
+  intro cw h
+  simp only [F7, List.mem_cons, List.not_mem_nil, or_false] at h
+  rcases h with rfl | rfl <;> exact ⟨rfl, rfl⟩
+
+/-- the run is matched by a `PNet` run … -/
+example : ∃ S, Rel tg F7 S ∧ RReach .counter ["a", "b"] S :=
+  full_run_simulates_pnet rel0 (.init (by decide)) run
+
+/-- … both wired clients hold the same counter state, by the theorem, … -/
+example : wA2.rep.state = wB1.rep.state :=
+  full_quiescent_converged_counter rel0 (.init (by decide)) run quiescent7 0 1 (by decide) (by decide)
+
+/-- … which is 5 (b executed a's operation through `applyPack` → `Replica.receive`); the store's log -/
+example : wA2.rep.state = .counter 5 ∧ wB1.rep.state = .counter 5 ∧
+    absLog r2.store "d1" = [⟨⟨0, 1, "a", 1⟩, .increase 5⟩] ∧
+    absCps r2.store "d1" = [("a", ⟨1, 1⟩), ("b", ⟨1, 0⟩)] := ⟨rfl, rfl, rfl, rfl⟩
+
+end Ex
 
 end Orda.FullNet
